@@ -145,11 +145,12 @@ def run_case(ctx, case, rec, d):
     else:
         ap, tables = fc.grid3d(seed * 10 + 5 + case['grid'], n_models=nmod, n_ap=4, bands=fc.ALL_BANDS)
         spec = {'fmt': 'v1' if case['grid'] == 0 else 'v2', 'names': names, 'bands': fc.ALL_BANDS, 'apertures': ap, 'tables': tables, 'logd_step': 0.2}
-        # one model whose surface brightness rises outwards: resolved at most trial distances (matters for remove_resolved)
-        tables[4] = tables[4][:, :1] * np.array([1.0, 1e2, 1e4, 1e6])[None, :]
+        # one model whose flux keeps rising steeply outwards: flagged as resolved at the nearer half of the trial distances (matters for
+        # remove_resolved; the other models are only flagged at the nearest distance)
+        tables[4] = tables[4][:, :1] * np.array([1.0, 1e3, 1e6, 1e9])[None, :]
         # ... and one that is extended in ONE band only (B3): whether it is removed depends on whether that band is used
         if nmod == 5:
-            tables[3, 2, :] = tables[3, 2, 0] * np.array([1.0, 1e2, 1e4, 1e6])
+            tables[3, 2, :] = tables[3, 2, 0] * np.array([1.0, 1e3, 1e6, 1e9])
         spec['tables'] = tables
         absent_fitters = {}
         md = fc.build_package(d, 'pkg', spec)
@@ -245,6 +246,8 @@ def run_case(ctx, case, rec, d):
                     absent_fitters[key_j] = (fc.make_fitter(md, kb, 'power', (avlo, avhi), distance_range_kpc=(dmin, dmax), memmap=False),
                                              fc.make_fitter(md, kb, 'power', (avlo, avhi), distance_range_kpc=(dmin, dmax), memmap=False, remove_resolved=True))
                 for which_rr, (ft_all, ft_abs) in (('', (fitter, absent_fitters[key_j][0])), ('remove_resolved', (fitter_rr, absent_fitters[key_j][1]))):
+                    if which_rr and any(fv[j] == 9 for j in ign):
+                        continue          # whether a plot-only band takes part in the removal of resolved models is not something the statement settles
                     fv_k = tuple(fv[j] for j in keep_j)
                     ra = _by_name(ft_all.fit(fc.make_source(fv, fl, er)), names)
                     rb = _by_name(ft_abs.fit(fc.make_source(fv_k, fl[keep_j], er[keep_j])), names)
